@@ -5,6 +5,41 @@ use super::*;
 
 include!("uci_extracted.rs");
 
+// ---- the `bestmove` line -------------------------------------------------------------------------------------------------
+// The statement `println!("bestmove {}{}{}", ..)` of the writer thread is extracted verbatim (uci_bestmove_extracted.rs) as
+// the body of `fn uci_print_bestmove(m: &Move)`.  The only substitution: inside this module `println!` is bound to a sink
+// that appends the formatted text and a newline to a fixed buffer instead of the process's stdout.
+static mut LINE: [u8; 32] = [0; 32];
+static mut LINE_LEN: [usize; 4] = [0; 4];
+
+struct LineSink;
+impl std::fmt::Write for LineSink {
+    fn write_str(&mut self, s: &str) -> std::fmt::Result {
+        for c in s.bytes() {
+            unsafe {
+                if LINE_LEN[0] >= 32 {
+                    return Err(std::fmt::Error);
+                }
+                LINE[LINE_LEN[0]] = c;
+                LINE_LEN[0] += 1;
+            }
+        }
+        Ok(())
+    }
+}
+
+pub fn emit_line(args: std::fmt::Arguments<'_>) {
+    use std::fmt::Write;
+    LineSink.write_fmt(args).unwrap();
+    LineSink.write_str("\n").unwrap();
+}
+
+macro_rules! println {
+    ($($t:tt)*) => { emit_line(format_args!($($t)*)) };
+}
+
+include!("uci_bestmove_extracted.rs");
+
 fn sq_index(s: Square) -> u8 {
     s.into()
 }
@@ -68,4 +103,33 @@ fn c14_uci_token_total() {
     kani::cover!(r.is_none(), "rejected token reachable");
     kani::cover!(text.len() < 4, "short token reachable");
     kani::cover!(!text.is_ascii(), "non-ASCII token reachable");
+}
+
+/// The line the engine answers a `go` with names the move in coordinate notation: `bestmove ` + origin + destination +
+/// lower-case promotion letter, newline -- for every move value.  Together with c12_uci_reader_inverts_lan the text selects
+/// the same move again.
+#[kani::proof]
+#[kani::unwind(34)]
+fn c12_uci_bestmove_line_contract() {
+    let m: Move = kani::any();
+    uci_print_bestmove(&m);
+    let o = sq_index(m.origin());
+    let d = sq_index(m.destination());
+    let (line, n) = unsafe { (LINE, LINE_LEN[0]) };
+    let head = b"bestmove ";
+    let mut i = 0;
+    while i < 9 {
+        assert!(line[i] == head[i]);
+        i += 1;
+    }
+    assert!(line[9] == b'a' + o % 8 && line[10] == b'1' + o / 8);
+    assert!(line[11] == b'a' + d % 8 && line[12] == b'1' + d / 8);
+    match m.promotion() {
+        None => assert!(n == 14 && line[13] == b'\n'),
+        Some(p) => {
+            assert!(n == 15 && line[13] == letter(p) && line[14] == b'\n');
+        }
+    }
+    kani::cover!(m.promotion() == Some(Piece::Knight), "promotion reachable");
+    kani::cover!(m.promotion().is_none(), "plain reachable");
 }
